@@ -335,11 +335,12 @@ def proof_stage(rep, prop, thorough=False):
         return proof
     proof["discharged"] = len([n for n in names if n in thms])
     if thorough:
-        with Lock("lake"):
-            rc, o = sh(["lake", "env", "leanchecker", f"BitcaskVerif.Props.{prop}"], cwd=LEAN, timeout=3600)
-        proof["leanchecker"] = "ok" if rc == 0 else o[-500:]
-        if rc != 0:
-            rep.violation("proof", dict(theorem=f"leanchecker BitcaskVerif.Props.{prop}", output=o[-3000:]), no_input=True)
+        for mod in [t for t in targets if t.startswith("BitcaskVerif.Props.")]:
+            with Lock("lake"):
+                rc, o = sh(["lake", "env", "leanchecker", mod], cwd=LEAN, timeout=3600)
+            proof["leanchecker"] = "ok" if rc == 0 and proof.get("leanchecker", "ok") == "ok" else o[-500:]
+            if rc != 0:
+                rep.violation("proof", dict(theorem=f"leanchecker {mod}", output=o[-3000:]), no_input=True)
     return proof
 
 
